@@ -213,7 +213,13 @@ func typeCheck(p *pkg) *typedPkg {
 		path = iotaGoPrefix + filepath.ToSlash(r)
 	}
 	var files []*ast.File
+	ctx := build.Default
+	ctx.GOOS, ctx.GOARCH, ctx.CgoEnabled = "linux", "amd64", false
 	for _, n := range p.sortedFiles() {
+		// the files the build constraints select for linux/amd64 without tags (as importExternal does)
+		if ok, err := ctx.MatchFile(p.dir, filepath.Base(n)); err == nil && !ok {
+			continue
+		}
 		files = append(files, p.files[n])
 	}
 	info := &types.Info{
@@ -249,6 +255,7 @@ const (
 	kUints               // []uint
 	kErr                 // error
 	kErrAt               // error in a function that builds &T{ErrX, off}: the pair (name of ErrX, off)
+	kInt8ss              // [][]int8 (only as a parameter: rows are read as x[j][lo:] arguments, assigned by make, or written through callees)
 )
 
 func (k lkind) lean() string {
@@ -267,6 +274,8 @@ func (k lkind) lean() string {
 		return "Option String"
 	case kErrAt:
 		return "Option (String × BitVec 64)"
+	case kInt8ss:
+		return "List (List (BitVec 8))"
 	}
 	die("lkind.lean")
 	return ""
@@ -284,7 +293,7 @@ func (k lkind) width() int {
 }
 
 func (k lkind) isNum() bool    { return k == kInt || k == kUint || k == kByte || k == kInt8 }
-func (k lkind) isSlice() bool  { return k == kBytes || k == kInts || k == kInt8s || k == kUints }
+func (k lkind) isSlice() bool  { return k == kBytes || k == kInts || k == kInt8s || k == kUints || k == kInt8ss }
 func (k lkind) isSigned() bool { return k == kInt || k == kInt8 }
 
 func (k lkind) elem() lkind {
@@ -297,6 +306,8 @@ func (k lkind) elem() lkind {
 		return kInt8
 	case kUints:
 		return kUint
+	case kInt8ss:
+		return kInt8s
 	}
 	die("lkind.elem")
 	return 0
@@ -329,6 +340,8 @@ type loopSet struct {
 	varText map[*types.Var]string
 	// functions translated under the assumption that the arrays of their parameters do not overlap
 	disjoint map[string]bool
+	nowrap   map[string]bool // functions translated under the assumption that `i += k` in their loop headers does not wrap around
+	ns       string // namespace the functions are generated in (for callers in other namespaces)
 }
 
 type loopCtx struct {
@@ -373,6 +386,18 @@ type loopTr struct {
 	errAt      bool                   // the function builds &T{ErrX, off}: error ↦ Option (String × BitVec 64)
 	mayOverlap []string               // output buffers accepted only under the assumption `disjoint` (for the doc comment)
 	synthCond  map[*ast.IfStmt]string // conditionals made from switch clauses: the Lean text of the condition ("" = translate Cond)
+	// methods, array fields, swapped array pointers, prefix reslicing (see loops_recv.go)
+	name      string               // the name under which the function was requested ("f" or "T.m")
+	recv      types.Object         // the receiver `c *T` (nil for a function)
+	ctor      bool                 // the function is a constructor: recv is the local `e := new(T)` it returns (loops_recv.go)
+	ctorDef   *ast.AssignStmt      // that statement
+	fields    []types.Object       // the fields of T the body uses, in declaration order: parameters c_f of the translation
+	fieldOuts []types.Object       // those of them the body writes: additional components of the result
+	tagged    map[types.Object]int // array-pointer parameters that are swapped: variable = (tag, content), see Go.byTag
+	restBuf   map[types.Object]bool // output buffers cut by `x = x[:k]`: the part behind the window is kept in x_rest
+	absDeps       map[string]string // abstract methods called: parameter name -> Lean type (loops_call.go)
+	assumedNoWrap bool // a loop header was accepted under the !nowrap assumption (for the doc comment)
+	hoisted   map[*ast.CallExpr]hoistedVal // calls that may panic, bound in front of the statement that contains them (loops_call.go)
 }
 
 func (t *loopTr) fail(n ast.Node, format string, a ...interface{}) {
@@ -391,6 +416,9 @@ func unparen(e ast.Expr) ast.Expr {
 }
 
 func (t *loopTr) kindOf(ty types.Type, at ast.Node) lkind {
+	if n, ok := ty.(*types.Named); ok && n.Obj().Pkg() != nil && n.Obj().Pkg().Path() == "strings" && n.Obj().Name() == "Builder" {
+		return kBytes // a local strings.Builder: the bytes written so far (see loops_call.go)
+	}
 	switch u := ty.Underlying().(type) {
 	case *types.Basic:
 		switch u.Kind() {
@@ -411,11 +439,18 @@ func (t *loopTr) kindOf(ty types.Type, at ast.Node) lkind {
 		if k, ok := sliceKind(u.Elem()); ok {
 			return k
 		}
+		if k, ok := nestedKind(ty); ok {
+			return k
+		}
 	case *types.Pointer: // *[N]T, only for parameters that are read by index (checked where it is used)
 		if a, ok := u.Elem().Underlying().(*types.Array); ok {
 			if k, ok := sliceKind(a.Elem()); ok {
 				return k
 			}
+		}
+	case *types.Array: // [N]T: fields of the receiver and local variables (arrays are values: no aliasing); parameters are rejected
+		if k, ok := sliceKind(u.Elem()); ok {
+			return k
 		}
 	case *types.Interface:
 		if types.Identical(ty, types.Universe.Lookup("error").Type()) {
@@ -450,14 +485,26 @@ func sliceKind(elem types.Type) (lkind, bool) {
 	return 0, false
 }
 
-// arrayLen returns N when ty is *[N]T.
+// arrayLen returns N when ty is *[N]T or [N]T.
 func arrayLen(ty types.Type) (int64, bool) {
 	if p, ok := ty.Underlying().(*types.Pointer); ok {
 		if a, ok := p.Elem().Underlying().(*types.Array); ok {
 			return a.Len(), true
 		}
 	}
+	if a, ok := ty.Underlying().(*types.Array); ok {
+		return a.Len(), true
+	}
 	return 0, false
+}
+
+// isArrayPtr: ty is *[N]T.
+func isArrayPtr(ty types.Type) bool {
+	if p, ok := ty.Underlying().(*types.Pointer); ok {
+		_, ok := p.Elem().Underlying().(*types.Array)
+		return ok
+	}
+	return false
 }
 
 func (t *loopTr) typeOf(e ast.Expr) types.TypeAndValue {
@@ -549,19 +596,30 @@ func (t *loopTr) collectFacts() {
 					} else if o := t.info.Uses[l]; o != nil {
 						f.plain[o]++
 					}
+				case *ast.SelectorExpr:
+					if o := t.fieldOf(l); o != nil {
+						f.plain[o]++
+					}
 				case *ast.IndexExpr:
-					if id, ok := unparen(l.X).(*ast.Ident); ok {
-						if o := t.info.Uses[id]; o != nil {
-							f.indexed[o] = true
-						}
+					if o := t.varOf(l.X); o != nil {
+						f.indexed[o] = true
 					}
 				}
 			}
+		case *ast.ExprStmt:
+			if dst := t.copyTarget(s); dst != nil {
+				f.indexed[dst] = true
+			}
+		case *ast.CallExpr:
+			for _, o := range t.callOuts(s) {
+				f.indexed[o] = true
+			}
+			if o, m := t.builderCall(s); o != nil && m != "String" {
+				f.plain[o]++
+			}
 		case *ast.IncDecStmt:
-			if id, ok := unparen(s.X).(*ast.Ident); ok {
-				if o := t.info.Uses[id]; o != nil {
-					f.plain[o]++
-				}
+			if o := t.varOf(s.X); o != nil {
+				f.plain[o]++
 			}
 		case *ast.ValueSpec:
 			for i, id := range s.Names {
@@ -618,19 +676,30 @@ func (t *loopTr) assignedIn(n ast.Node) (plain, indexed map[types.Object]bool) {
 					if o := t.objOf(l); o != nil && l.Name != "_" {
 						plain[o] = true
 					}
+				case *ast.SelectorExpr:
+					if o := t.fieldOf(l); o != nil {
+						plain[o] = true
+					}
 				case *ast.IndexExpr:
-					if id, ok := unparen(l.X).(*ast.Ident); ok {
-						if o := t.objOf(id); o != nil {
-							indexed[o] = true
-						}
+					if o := t.varOf(l.X); o != nil {
+						indexed[o] = true
 					}
 				}
 			}
+		case *ast.ExprStmt:
+			if dst := t.copyTarget(s); dst != nil {
+				indexed[dst] = true
+			}
+		case *ast.CallExpr:
+			for _, o := range t.callOuts(s) {
+				indexed[o] = true
+			}
+			if o, m := t.builderCall(s); o != nil && m != "String" {
+				plain[o] = true
+			}
 		case *ast.IncDecStmt:
-			if id, ok := unparen(s.X).(*ast.Ident); ok {
-				if o := t.objOf(id); o != nil {
-					plain[o] = true
-				}
+			if o := t.varOf(s.X); o != nil {
+				plain[o] = true
 			}
 		}
 		return true
